@@ -9,6 +9,6 @@ VARIABLES
   mode,
   \* @type: Str -> Int;
   saved
-NCalls == 24
+NCalls == 25
 INSTANCE SessionInd
 ====
